@@ -42,6 +42,71 @@ example : callChain [exNext, exLoader] none = .nc ⟨.error, 3, .noneIn, none⟩
 example : callChain [⟨4, .generic, true, [9], fun _ => .retNone⟩, exLoader] (some (.ok ⟨1, 5, some 5⟩))
     = .nc ⟨.error, 4, .badType 2, some 5⟩ := by decide
 
+/-- (auditor) one layer of `_call`: a non-loader step with a connected input app applies the rest of `_call`
+(`afterInput`: skip / type check / try-main / None ⇒ BUG) to what the inner composition delivered. -/
+theorem step_on_delivered (s : Step) (inner : List Step) (hin : inner ≠ []) (hs : s.kind ≠ .loader)
+    (x : V) : callChain (s :: inner) (some (.ok x)) = afterInput s (callChain inner (some (.ok x))) := by
+  have hne : inner.isEmpty = false := by cases inner <;> simp_all
+  have hkind : (s.kind != .loader) = true := by simpa using hs
+  simp [callChain, Val.isNC, hne, hkind]
+
+/-- (auditor) **The not-completed record names the failing step, message and source.**  If the inner part of a
+composition delivers `y` to step `s` and `s` raises / returns `None` / returns its own not-completed /
+rejects the type of `y`, then the WHOLE composition (any skipping outer steps) returns exactly the record
+`_call` builds at `s`: type, origin `s.name`, message and the source carried by `y` — not just *some* record
+with that origin (which is all `call_total` says). -/
+theorem failing_step_recorded (outer : List Step) (s : Step) (inner : List Step) (hin : inner ≠ [])
+    (hs : s.kind ≠ .loader)
+    (hskip : ∀ t ∈ outer, t.skipNC = true) (hk : ∀ t ∈ outer, t.kind ≠ .loader)
+    (x y : V) (hy : callChain inner (some (.ok x)) = .ok y) :
+    (validate s (.ok y) = none → ∀ t, s.main (.ok y) = .raise t →
+      callChain (outer ++ s :: inner) (some (.ok x)) = .nc ⟨.error, s.name, .exc t, y.src⟩) ∧
+    (validate s (.ok y) = none → s.main (.ok y) = .retNone →
+      callChain (outer ++ s :: inner) (some (.ok x)) = .nc ⟨.bug, s.name, .noneOut, y.src⟩) ∧
+    (validate s (.ok y) = none → ∀ n, s.main (.ok y) = .retNC n →
+      callChain (outer ++ s :: inner) (some (.ok x)) = .nc n) ∧
+    (validate s (.ok y) ≠ none →
+      callChain (outer ++ s :: inner) (some (.ok x)) = .nc ⟨.error, s.name, .badType y.ty, y.src⟩) := by
+  have h0 := step_on_delivered s inner hin hs x
+  rw [hy] at h0
+  refine ⟨fun hv t hm => ?_, fun hv hm => ?_, fun hv n hm => ?_, fun hv => ?_⟩
+  all_goals apply nc_passthrough outer (s :: inner) (by simp) hskip hk x
+  all_goals rw [h0]
+  · simp [afterInput, Val.isNC, hv, runMain, hm, Val.source]
+  · simp [afterInput, Val.isNC, hv, runMain, hm, Val.source]
+  · simp [afterInput, Val.isNC, hv, runMain, hm]
+  · cases hval : validate s (.ok y) with
+    | none => exact absurd hval hv
+    | some n =>
+      have : n = ⟨.error, s.name, .badType y.ty, y.src⟩ := by
+        unfold validate at hval
+        split at hval
+        · cases hval
+        · split at hval
+          · cases hval
+          · cases hval; rfl
+      simp [afterInput, Val.isNC, hval, this]
+
+/-- (auditor) …and a success at `s` is `main`'s return value on exactly what the inner composition delivered. -/
+theorem step_success (s : Step) (inner : List Step) (hin : inner ≠ []) (hs : s.kind ≠ .loader)
+    (x y r : V) (hy : callChain inner (some (.ok x)) = .ok y) (hv : validate s (.ok y) = none)
+    (hm : s.main (.ok y) = .ret r) : callChain (s :: inner) (some (.ok x)) = .ok r := by
+  rw [step_on_delivered s inner hin hs x, hy]
+  simp [afterInput, Val.isNC, hv, runMain, hm]
+
+example : callChain [exNext, exFail, exLoader] (some (.ok ⟨1, 5, some 5⟩)) = .nc ⟨.error, 2, .exc 7, some 5⟩ :=
+  (failing_step_recorded [exNext] exFail [exLoader] (by simp) (by decide) (by decide) (by decide)
+    ⟨1, 5, some 5⟩ ⟨2, 5, some 5⟩ (by decide)).1 (by decide) 7 (by decide)
+
+example : callChain [exNext, exLoader] (some (.ok ⟨1, 5, some 5⟩)) = .ok ⟨2, 5, some 5⟩ :=
+  step_success exNext [exLoader] (by simp) (by decide) ⟨1, 5, some 5⟩ ⟨2, 5, some 5⟩ ⟨2, 5, some 5⟩
+    (by decide) (by decide) (by decide)
+-- rejected type: the loader delivers class 2, the step accepts only class 9
+example : callChain [exNext, ⟨4, .generic, true, [9], fun _ => .retNone⟩, exLoader] (some (.ok ⟨1, 5, some 5⟩))
+    = .nc ⟨.error, 4, .badType 2, some 5⟩ :=
+  (failing_step_recorded [exNext] ⟨4, .generic, true, [9], fun _ => .retNone⟩ [exLoader] (by simp) (by decide)
+    (by decide) (by decide) ⟨1, 5, some 5⟩ ⟨2, 5, some 5⟩ (by decide)).2.2.2 (by decide)
+
 /-- **Any schedule.** Inputs whose identifiers are distinct (the selection succeeded), any app
 (any per-record outcome), and results arriving in ANY permutation of the submitted tasks: the
 final store holds, for every selected input, exactly one record under its own identifier, equal
